@@ -1,5 +1,6 @@
 // C17 — path post-processing. E1: all short waypoint paths of a world x routines x parameters x deviation-bounded answer
 // streams of the routine's random draws; E3 for the deterministic densification routines.
+#include <ompl/base/DiscreteMotionValidator.h>
 #include "path_oracle.hpp"
 #include "asanhook.hpp"
 #include "notime.hpp"
@@ -10,8 +11,43 @@ using namespace vw;
 
 static const char *ROUTINES[] = {"reduceVertices", "partialShortcut", "ropeShortcut", "collapseClose", "smoothBSpline", "perturb", "findBetterGoal", "simplify", "simplifyMax"};
 
+// records every motion the routine validated successfully (and the valid part of a partly valid one): the oracle for "introduces only
+// motions it has validated"
+struct RecordingValidator : ob::MotionValidator
+{
+    std::shared_ptr<ob::MotionValidator> inner;
+    mutable std::vector<std::array<double, 4>> ok;
+    RecordingValidator(const ob::SpaceInformationPtr &si) : ob::MotionValidator(si), inner(std::make_shared<ob::DiscreteMotionValidator>(si))
+    {
+    }
+    void note(const ob::State *a, const ob::State *b) const
+    {
+        double x1, y1, x2, y2;
+        xy(si_->getStateSpace().get(), a, x1, y1);
+        xy(si_->getStateSpace().get(), b, x2, y2);
+        ok.push_back({x1, y1, x2, y2});
+    }
+    bool checkMotion(const ob::State *s1, const ob::State *s2) const override
+    {
+        bool r = inner->checkMotion(s1, s2);
+        if (r)
+            note(s1, s2);
+        return r;
+    }
+    bool checkMotion(const ob::State *s1, const ob::State *s2, std::pair<ob::State *, double> &lastValid) const override
+    {
+        bool r = inner->checkMotion(s1, s2, lastValid);
+        if (r)
+            note(s1, s2);
+        else if (lastValid.first && lastValid.second > 0)
+            note(s1, lastValid.first);
+        return r;
+    }
+};
+
 struct World
 {
+    std::shared_ptr<RecordingValidator> rec;
     std::unique_ptr<Problem> P;
     std::vector<std::array<double, 2>> wp;  // waypoints
     World(const std::string &map)
@@ -26,6 +62,8 @@ struct World
         so.salt = 77;
         vc::Install i(so);
         P = std::make_unique<Problem>(c);
+        rec = std::make_shared<RecordingValidator>(P->si);
+        P->si->setMotionValidator(rec);
         const Map &m = P->map;
         // waypoints: start, goal, second goal state, and up to 5 free cell centres spread over the map
         wp.push_back({m.sx + 0.263, m.sy + 0.257});
@@ -80,10 +118,20 @@ static std::vector<vc::Point> runCase(World &W, const Case &c, bool inputValid, 
         }
         sp->freeState(t);
     }
+    if (c.param == 4 && c.routine == "perturb")
+    {
+        path.subdivide();
+        path.subdivide();
+    }
     og::PathGeometric before(path);
     auto lenObj = std::make_shared<ob::PathLengthOptimizationObjective>(P.si);
     ob::OptimizationObjectivePtr obj = lenObj;
-    bool useField = c.param == 2 && (c.routine == "perturb" || c.routine == "findBetterGoal");
+    // param 3 (perturb only): cost-aware objective (so that perturbations are accepted at all), a long step and a coarse snap (both ends
+    // of the perturbed stretch land on vertices): the branch that replaces a whole run of old vertices by the accepted perturbation
+    // param 4 (perturb only): param 3 on a DENSE input (the waypoint path subdivided twice: vertex spacing below the snap distance, so the
+    // two ends of the perturbed stretch land on vertices with several old vertices between them)
+    bool useField = (c.param >= 2) && (c.routine == "perturb" || c.routine == "findBetterGoal");
+
     if (useField)
         obj = std::make_shared<Problem::FieldIntegral>(P.si);
     // a fresh goal object per case: GoalStates::sampleGoal() cycles through its states with an internal cursor, which would
@@ -103,8 +151,9 @@ static std::vector<vc::Point> runCase(World &W, const Case &c, bool inputValid, 
     ob::PlannerTerminationCondition ptc([&] { return ++calls > 25; });
     bool ret = false;
     unsigned maxSteps = c.param == 0 ? 1 : 3;
-    double ratio = c.param == 1 ? 1.0 : 0.33, snap = c.param == 1 ? 0.5 : 0.005;
+    double ratio = c.param == 1 ? 1.0 : 0.33, snap = (c.param == 1 || c.param == 3) ? 0.5 : c.param == 4 ? 0.1 : 0.005;
     const std::string &r = c.routine;
+    W.rec->ok.clear();
     {
         vc::Install inst(o);
         try
@@ -120,7 +169,7 @@ static std::vector<vc::Point> runCase(World &W, const Case &c, bool inputValid, 
             else if (r == "smoothBSpline")
                 ps.smoothBSpline(path, maxSteps, c.param == 2 ? 0.05 : std::numeric_limits<double>::epsilon());
             else if (r == "perturb")
-                ret = ps.perturbPath(path, c.param == 1 ? 1.5 : 0.4, maxSteps, 0, snap);
+                ret = ps.perturbPath(path, (c.param == 3 || c.param == 1 || c.param == 4) ? 1.5 : 0.4, maxSteps, 0, snap);
             else if (r == "findBetterGoal")
                 ret = ps.findBetterGoal(path, ptc, c.param == 0 ? 1 : 4, ratio, snap);
             else if (r == "simplify")
@@ -173,6 +222,43 @@ static std::vector<vc::Point> runCase(World &W, const Case &c, bool inputValid, 
         if (worst > 2.05)
             fail(K + "invalid-motion-introduced" + (combined ? std::string(ret ? "|reported-success" : "|reported-failure") : std::string()) + inputClass,
                  "a valid input path came back with a stretch of " + vf::jnum(worst) + " resolution lengths inside invalid space");
+        // "introduces only motions it has validated": every motion of the result is a motion of the input, or was validated by the routine,
+        // or is a piece of one of those (subdivision / densification): both end points on one such segment
+        {
+            std::vector<std::array<double, 4>> segs = W.rec->ok;
+            for (size_t i = 0; i + 1 < before.getStateCount(); ++i)
+            {
+                double x1, y1, x2, y2;
+                xy(sp.get(), before.getState(i), x1, y1);
+                xy(sp.get(), before.getState(i + 1), x2, y2);
+                segs.push_back({x1, y1, x2, y2});
+            }
+            auto onSeg = [](const std::array<double, 4> &g, double x, double y) {
+                double dx = g[2] - g[0], dy = g[3] - g[1], L2 = dx * dx + dy * dy;
+                double t = L2 > 0 ? ((x - g[0]) * dx + (y - g[1]) * dy) / L2 : 0;
+                t = std::min(1.0, std::max(0.0, t));
+                return std::hypot(x - (g[0] + t * dx), y - (g[1] + t * dy)) <= 1e-9;
+            };
+            for (size_t i = 0; i + 1 < n; ++i)
+            {
+                double x1, y1, x2, y2;
+                xy(sp.get(), path.getState(i), x1, y1);
+                xy(sp.get(), path.getState(i + 1), x2, y2);
+                bool found = false;
+                for (auto &g : segs)
+                    if (onSeg(g, x1, y1) && onSeg(g, x2, y2))
+                    {
+                        found = true;
+                        break;
+                    }
+                if (!found)
+                {
+                    fail(K + "unvalidated-motion" + (combined ? std::string(ret ? "|reported-success" : "|reported-failure") + inputClass : std::string()), "the motion " + vo::sstr(sp.get(), path.getState(i)) + " -> " + vo::sstr(sp.get(), path.getState(i + 1)) +
+                                                       " of the result is neither a motion of the input nor (a piece of) a motion the routine validated");
+                    break;
+                }
+            }
+        }
         for (size_t i = 0; i < n; ++i)
             if (!sp->satisfiesBounds(path.getState(i)))
                 fail(K + "state-out-of-bounds", "result state " + std::to_string(i) + " out of bounds");
@@ -248,7 +334,7 @@ static void runRoutine(const std::string &map, const std::string &routine, const
             if (wanted)
             {
                 ++inputs;
-                for (int param = 0; param < 3; ++param)
+                for (int param = 0; param < (routine == "perturb" ? 5 : 3); ++param)
                 {
                     Case c{map, routine, p, param, {}};
                     auto run = [&](const std::map<size_t, int> &dev) {
